@@ -62,19 +62,40 @@ def main(tier: str) -> int:
         for cfg in cfgs:
             k += 1
             perturb(k)
-            a = fingerprint(T.record(cn, dict(cfg)))
+            try:
+                a = fingerprint(T.record(cn, dict(cfg)))
+                # the same optimizer class again with a DIFFERENT configuration in between (per-class state must not leak)
+                T.record(cn, dict(cfg, pop_size=cfg["pop_size"] + 1, iters=3, seed=cfg["seed"] + 77))
+            except Exception as e:
+                chk.fail("an optimizer run raises after another run of the same class in this process (state leaks between instances)",
+                         {"optimizer": cn, **cfg, "error": repr(e)[:200]}, {"target": cn, "clause": "raises"})
+                continue
             # another optimizer in between, then perturb all generators differently
             other = T.ALL[(T.ALL.index(cn) + 3) % len(T.ALL)]
-            T.record(other, dict(pop_size=8 if other not in T.GP else 7, iters=3, objective="plateau", seed=99 + k))
+            try:
+                T.record(other, dict(pop_size=8 if other not in T.GP else 7, iters=3, objective="plateau", seed=99 + k))
+            except Exception as e:
+                chk.fail("an optimizer run raises after another run in this process (state leaks between instances)",
+                         {"optimizer": other, "error": repr(e)[:200]}, {"target": other, "clause": "raises"})
             perturb(1000 + 7 * k)
-            b = fingerprint(T.record(cn, dict(cfg)))
+            try:
+                b = fingerprint(T.record(cn, dict(cfg)))
+            except Exception as e:
+                chk.fail("an optimizer run raises after another run of the same class in this process (state leaks between instances)",
+                         {"optimizer": cn, **cfg, "error": repr(e)[:200]}, {"target": cn, "clause": "raises"})
+                continue
             # RandomState object in the state the integer seed produces
             cfg_rs = dict(cfg)
             cfg_rs["seed"] = np.random.RandomState(cfg["seed"])
-            c = fingerprint(T.record(cn, cfg_rs))
             cfg_other = dict(cfg)
             cfg_other["seed"] = cfg["seed"] + 1
-            d2 = fingerprint(T.record(cn, cfg_other))
+            try:
+                c = fingerprint(T.record(cn, cfg_rs))
+                d2 = fingerprint(T.record(cn, cfg_other))
+            except Exception as e:
+                chk.fail("an optimizer run raises after another run of the same class in this process (state leaks between instances)",
+                         {"optimizer": cn, **cfg, "error": repr(e)[:200]}, {"target": cn, "clause": "raises"})
+                continue
             chk.count(cn)
             d = {"optimizer": cn, **cfg}
             chk.case((cn, str(sorted(cfg.items()))), sample=d if len(chk.samples) < 3 else None)
